@@ -132,6 +132,7 @@ type Interp struct {
 	pathVars []*Term
 	marshalTab map[uint64]marshalEntry
 	marshalSeq uint64
+	marshalByKey map[string]uint64
 	fpBitsMemo map[*Term]*Term // per path: math.Float64bits of the same FP term yields the same bits variable
 
 	// sinks
